@@ -88,7 +88,10 @@ class _HyperVolume:
             # fmder: Assume relevantPoints are numpy array
             # for j in xrange(len(relevantPoints)):
             #     relevantPoints[j] = [relevantPoints[j][i] - referencePoint[i] for i in xrange(dimensions)]
-            relevantPoints -= referencePoint
+            # not in place: the caller's array must keep its values (it may be
+            # a view, or be used again), and integer points with a float
+            # reference point must not raise
+            relevantPoints = numpy.subtract(relevantPoints, referencePoint)
             # fmder
             #######
 
